@@ -229,3 +229,31 @@ def c02(ctx, api):
             % (15 if thorough else 9), st, summ)
     return acc.result(RULE_PINNED, extra={'model_checks': ['UnknownFunction', 'ArityIffOutOfRange', 'NoArityWhenInRange',
                                                            'TypeErrorIffOutsideSignature', 'OnlyDynamicCategories']})
+
+
+# --------------------------------------------------------------------- C11
+@plan('C11')
+def c11(ctx, api):
+    acc = Acc()
+    thorough = ctx['tier'] == 'thorough'
+    n = 4 if thorough else 3
+    st, summ = api['run_tlc_to_harness'](ctx, 'str', 'GenStr',
+                                         cfg(constants={'Emit': 'TRUE', 'Prop': '"C11"', 'MaxLen': n}), timeout=3000)
+    acc.add('GenStr: all strings of length <= %d over {a, e-acute, U+0301, euro, U+FFFD, emoji} x ~170 string operations' % n, st, summ)
+    return acc.result(RULE_PINNED, extra={'model_checks': ['RenamingHomomorphism', 'NoTypeErrors'],
+                                          'generic': 'every result string is checked to be valid UTF-8'})
+
+
+# --------------------------------------------------------------------- C13
+@plan('C13')
+def c13(ctx, api):
+    acc = Acc()
+    thorough = ctx['tier'] == 'thorough'
+    lengths = '{0, 1, 2, 3, 11, 12, 13, 20, 33, 64}' if thorough else '{0, 1, 2, 3, 11, 12, 13, 20}'
+    seeds = '{%s}' % ', '.join(str(ctx['seed'] + i) for i in range(8 if thorough else 1))
+    st, summ = api['run_tlc_to_harness'](ctx, 'sort', 'GenSort',
+                                         cfg(constants={'Emit': 'TRUE', 'Prop': '"C13"', 'Lengths': lengths, 'Seeds': seeds}),
+                                         timeout=3000)
+    acc.add('GenSort: lengths %s x 4 key patterns x {number, string keys} x %d seeds x 10 expressions'
+            % (lengths, 8 if thorough else 1), st, summ)
+    return acc.result(RULE_PINNED, extra={'model_checks': ['Permutation', 'Ordered', 'TiesKeepInputOrder']})
